@@ -8,7 +8,7 @@ use crate::refmodel::{self, RunFail};
 use crate::report::{self, Report, Violation};
 use serde_json::json;
 
-const IDENTS: [(&str, bool); 18] = [
+const IDENTS: [(&str, bool); 19] = [
     ("_id", false),
     ("_created_at", false),
     ("user_id", false),
@@ -28,6 +28,8 @@ const IDENTS: [(&str, bool); 18] = [
     // a digit directly followed by a letter inside one word (serde starts a new word at `_` only)
     ("k8s_namespace", false),
     ("field_2fa", false),
+    // a keyword-style trailing underscore (serde keeps the empty last word: `type-` under the kebab rules)
+    ("type_", false),
 ];
 const RENAMES: [Option<&str>; 6] = [None, Some("renamed"), Some("with-dash"), Some("camelCased"), Some("_lead"), Some("x-y-z")];
 const RULES: [Option<&str>; 10] = [
